@@ -16,7 +16,9 @@ EXTENDS MonBase, PESEncode
 VARIABLES l, st
 vars == <<l, st>>
 Init == l = 1 /\ st = [tr |-> "none", at |-> 0]
-V(kind, s, e, more) == [prop |-> "C12", kind |-> kind, trace |-> s.tr, at |-> s.at, class |-> e.class] @@ more
+\* sidclass names the stream ids the standard exempts from the optional header besides padding_stream / private_stream_2 (the two the library exempts)
+SidClass(e) == IF "v" \in DOMAIN e /\ "sid" \in DOMAIN e.v /\ e.v.sid \in {188, 240, 241, 242, 248, 255} THEN "no-optional-header-id-other-than-0xBE-0xBF" ELSE "other"
+V(kind, s, e, more) == [prop |-> "C12", kind |-> kind, trace |-> s.tr, at |-> s.at, class |-> e.class, sidclass |-> SidClass(e)] @@ more
 
 FirstDiff(a, b) == IF Len(a) # Len(b) THEN -Len(a) ELSE IF a = b THEN 0 ELSE CHOOSE k \in 1..Len(a) : a[k] # b[k] /\ \A j \in 1..(k-1) : a[j] = b[j]
 
